@@ -1,5 +1,5 @@
 """Which obligations exist, which property each serves, how counterexamples are confirmed natively."""
-from .obligations import version
+from .obligations import version, table
 
 ASSUMPTIONS = [
     'Engine B: the MIR executor (mirse/exec.py) and the std/dependency summaries (mirse/lib.py) are trusted; every counterexample is replayed on the native build, passing witnesses are replayed differentially',
@@ -28,10 +28,12 @@ OBLIGATIONS = {
               'confirm': version.o7_4c_confirm, 'witness_ok': version.o7_4c_witness_ok},
     'O1.4': {'engine': 'B', 'title': 'files consulted by a lookup: all containing level-0 files newest first, the unique candidate per deeper level', 'run': version.o1_4_overlapping_files,
              'confirm': version.o1_4_confirm, 'witness_ok': version.o1_4_witness_ok},
+    'O1.6': {'engine': 'B', 'title': 'Table::get distinguishes value / deleted / not-in-this-file correctly for every lookup bound', 'run': table.o1_6_table_get,
+             'confirm': table.o1_6_confirm, 'witness_ok': table.o1_6_witness_ok},
 }
 
 PROPERTIES = {
     'C07': {'obligations': ['O7.1', 'O7.2', 'O7.3', 'O7.4a', 'O7.4b', 'O7.4c']},
-    'C01': {'obligations': ['O1.3', 'O1.4']},
+    'C01': {'obligations': ['O1.3', 'O1.4', 'O1.6']},
     'C10': {'obligations': ['O7.1', 'O1.3', 'O10.3']},
 }
